@@ -112,8 +112,23 @@ def oracle_c13(t):
 
 
 def one(ctx, rows, s, j, zstep, desc):
-    w = P.run_workflow(ctx, rows, s, j, zstep)
+    w = P.run_workflow(ctx, rows, s, j, zstep, keep_db=True)
     st, t = w["status"], w["tables"]
+    # whatever a later command does to the dataset, the rows it holds must still trace back: ask for another
+    # grid step on the finished dataset (refused today; if accepted the tables must be consistent with it)
+    from . import cli
+    other = zstep * 2.5
+    r2 = cli.run(["set-zeta-grid", w["db"], "-d", repr(other)])
+    t2 = cli.dump(w["db"])
+    P.cleanup(w)
+    if st.get("rise", ("x",))[0] == "ok" and st.get("recession", ("x",))[0] == "ok" and t2 != t:
+        o2 = oracle_c13(t2)
+        ctx.count("second_set_zeta_grid_changed_the_dataset")
+        if not o2["result"]:
+            ctx.violation("impl-violation", "c13Holds", {
+                "input": dict(desc, zeta_step=zstep, s=s, j=j, then="set-zeta-grid -d %r" % other),
+                "impl": {"second_set_zeta_grid": list(r2), "zeta_grid": t2["zeta_grid"]}, "oracle": o2})
+            return
     inp = dict(desc, zeta_step=zstep, s=s, j=j)
     if any(st.get(k, ("x",))[0] != "ok" for k in ("load", "classify", "grid")):
         ctx.count("early_step_failed")
